@@ -6,7 +6,7 @@ GOENV = "GOFLAGS=-mod=mod GOPROXY=off GOSUMDB=off GOTOOLCHAIN=local"
 
 CHECKS = {
  "C15": dict(
-   text="Bounded symbolic model checking of the real decodeTimeout (with strconv.ParseInt interpreted from source): every grpc-timeout string of length 0..10 with all bytes symbolic is compared with a reference (1-8 digits x unit, clamp of overflowing hours, rejection of every malformed shape). Exhaustive within the bound because lengths are enumerated and bytes are solver variables.",
+   text="Bounded symbolic model checking of the real decodeTimeout (with strconv.ParseInt interpreted from source): every grpc-timeout string of length 0..10 with all bytes symbolic is compared with a reference (1-8 digits x unit, clamp of overflowing hours, rejection of every malformed shape). Exhaustive within the bound because lengths are enumerated and bytes are solver variables. Through the serveGRPC driver: a malformed grpc-timeout is answered 400 without invoking the handler, a well-formed one becomes the handler context's deadline (frozen-clock model).",
    note="Trusted: go/ssa as source semantics, the engine's instruction semantics (validated per run by native replay of witnesses), z3. Not covered (N/A part of the property): client cancellation / disconnect reaching a blocked handler - needs goroutines and the HTTP/2 server, which the executor does not model. Sign-prefixed values are unspecified.",
    design="§4 C15"),
  "C17": dict(
@@ -14,8 +14,8 @@ CHECKS = {
    note="Trusted: go/ssa semantics, engine semantics (witness replay per run), z3, the vfFragReader model of the io.Reader contract, runtime.growslice capacity model. Outside: limit <= 0, zero-byte non-error reads, payloads longer than the bound (long multi-byte prefixed messages only through the arbitrary-wire harness).",
    design="§4 C17"),
  "C05": dict(
-   text="Bounded symbolic model checking of the status kernels: HTTPStatusCode / WSStatusCode on any uint32 code against the frozen documented tables; encodeGrpcMessage on every byte string up to the bound, decoded back with a reference Percent-Decoder and checked for legal output bytes. (Further protocol clauses are added as the serveGRPC / encError drivers are built.)",
-   note="Trusted: go/ssa semantics, engine semantics, z3, exact model of fmt.Sprintf(\"%%%02x\"). Outside: what real clients decode (transports are not encoded), JSON rendering of the status body; Twirp / gRPC-web / WebSocket close-frame clauses are not yet claimed in this revision.",
+   text="Bounded symbolic model checking of the status kernels: HTTPStatusCode / WSStatusCode on any uint32 code against the frozen documented tables; encodeGrpcMessage on every byte string up to the bound, decoded back with a reference Percent-Decoder and checked for legal output bytes. Through the real drivers (NewMux + registerService + ServeHTTP with a ResponseWriter model): gRPC grpc-status / grpc-message trailers, HTTP status + google.rpc.Status body under the negotiated type, Twirp name and message, gRPC-web trailer frame in binary and base64 text mode (and trailers-only responses) on HTTP/1.1 and HTTP/2, for handler codes 1..17 and symbolic messages.",
+   note="Trusted: go/ssa semantics, engine semantics, z3, exact model of fmt.Sprintf(\"%%%02x\"). Outside: what real clients decode (transports are not encoded), JSON rendering of the status body, status details, the WebSocket close frame (inline behind ws.UpgradeHTTP).",
    design="§4 C05"),
  "C01": dict(
    text="Bounded symbolic model checking of the real trie: rule sets are registered with the real addRule (lexTemplate, addVariable, addPath) over fake descriptors, then match (lexPath, search, variable.index, parseParam) runs on a fully symbolic request path; whatever is dispatched must be covered by a rule of that method under an independent reference matcher over the raw path (liberal reading of ':'), with captures byte-equal to the reference captures and no other field set.",
@@ -35,7 +35,7 @@ CHECKS = {
    design="§4 C19"),
  "C14": dict(
    text="Bounded symbolic model checking of the metadata kernels: decodeBinHeader/encodeBinHeader with the real encoding/base64 interpreted on symbolic bytes (padded and unpadded), setOutgoingHeader with reserved names, symbolic near-misses and arbitrary short keys against a header map holding the reserved response headers, newIncomingContext on headers with symbolic values.",
-   note="Trusted: go/ssa semantics, engine, z3, context.WithValue stub. Outside: client-visible trailers on gRPC / gRPC-web (needs the serveGRPC driver), handler keys that are not lower-case, HPACK.",
+   note="Trusted: go/ssa semantics, engine, z3, context.WithValue stub. Through the serveGRPC / serveGRPCWeb drivers: handler header and trailer metadata and forged reserved trailers as the client sees them under net/http's header / trailer rules. Outside: handler keys that are not lower-case, HPACK, grpc-go's client view.",
    design="§4 C14"),
  "C08": dict(
    text="Bounded symbolic model checking of every size comparison on the receive and send paths with the limits themselves symbolic: readAll / writeAll (unary HTTP), the three stream codecs' limit handling through streamHTTP.RecvMsg, streamGRPC.RecvMsg with a symbolic flag byte and all 2^32 frame lengths and (fake) decompression to an arbitrary length, streamGRPC.SendMsg with independent symbolic send and receive limits. Obligations: no payload larger than the receive limit reaches the codec (measured after decompression); nothing within the limits is refused, exactly-at-limit included.",
@@ -57,6 +57,14 @@ CHECKS = {
    text="Bounded symbolic model checking of request reconstruction: query-key resolution (proto / JSON names, dotted paths), per-kind conversion of URL text for string, bytes (base64 per the proto3-JSON rule, against a reference decoder), enum, int32 and bool, application to the message (set / append / nested creation), rejection of unknown keys and of paths through repeated or map fields, and through the real ServeHTTP the body plumbing (bytes reach the codec unmodified exactly once on the whole message or the body field, params after the body).",
    note="Trusted base as C07 plus the exact model of encoding/json.Unmarshal for integer / bool targets. N/A part, stated: float / 64-bit / well-known-type text conversion, real JSON / protobuf codecs, gzip.",
    design="§4 C03"),
+ "C18": dict(
+   text="Bounded symbolic model checking of the interceptor / stats plumbing through the real drivers: one unary RPC through NewMux + registerService + ServeHTTP on the gRPC and the transcoding entry with every combination of stats handler and unary interceptor on/off and succeeding / failing handlers (symbolic code and message): the interceptor runs exactly once with the full method name, the recorded stats events form tag, in-header, begin, payload events, out-trailer, end with End exactly once carrying the handler's error and payload lengths equal to the message lengths, and the client-visible result satisfies the same oracle under every option combination.",
+   note="Trusted base as C07. Outside: stream interceptors / streaming shapes through the drivers, proxied handlers, WebSocket stats.",
+   design="§4 C18"),
+ "C09": dict(
+   text="Panic-freedom and termination as the only obligations, over the real entry point and kernels on unconstrained symbolic input: ServeHTTP with symbolic content types, Accept headers, paths and bodies across the gRPC, gRPC-web and transcoding entries on HTTP/1 and HTTP/2; match at the 64-token cap; query parameters over list / map / nested fields; registration of mutated templates; stream codec parsers; gRPC frame reader with stats; status tables; negotiation; timeout parser. Any panic escaping larking's code or a path exhausting the step budget is reported with the concrete request and replayed natively.",
+   note="Trusted base as C07. Every media type is served by the recording codec (real protobuf-go codecs cannot run on fake messages). Outside: the HTTP/2 server, ws.UpgradeHTTP / WebSocket frame I/O, user-supplied interceptors, gzip.",
+   design="§4 C09"),
 }
 
 NOT_APPLICABLE = {
